@@ -4,8 +4,10 @@ package main
 
 import (
 	"go/ast"
+	"go/constant"
 	"go/token"
 	"go/types"
+	"math"
 	"strings"
 
 	"golang.org/x/tools/go/packages"
@@ -211,6 +213,9 @@ func (p *Program) clockKindRec(ex ast.Expr, fd *ast.FuncDecl, pk *packages.Packa
 		p.clockVisiting[v] = true
 		kinds := map[string]string{}
 		for _, r := range rhs {
+			if isSaturatingClamp(info, fd, v, r) {
+				continue // v = min(v, largest representable instant): the identity on every representable value
+			}
 			k, d := p.clockKindRec(r, fd, pk, depth+1)
 			if k == "self" {
 				continue
@@ -345,3 +350,100 @@ func (p *Program) callbackParamKind(fl *ast.FuncLit, pi int, fd *ast.FuncDecl, p
 var _ = token.NoPos
 
 func exprStr(e ast.Expr) string { return types.ExprString(e) }
+
+// isSaturatingClamp: r is the right-hand side of "v = r" that is the only statement of
+// an if whose condition is v.After(r) (or r.Before(v)), and r denotes the largest instant
+// representable as Unix nanoseconds, time.Unix(0, math.MaxInt64). Such an assignment
+// computes min(v, MAX) and leaves every representable v unchanged.
+func isSaturatingClamp(info *types.Info, fd *ast.FuncDecl, v *types.Var, r ast.Expr) bool {
+	isV := func(e ast.Expr) bool {
+		id, ok := ast.Unparen(e).(*ast.Ident)
+		return ok && (info.Uses[id] == v || info.Defs[id] == v)
+	}
+	same := func(a, b ast.Expr) bool {
+		a, b = ast.Unparen(a), ast.Unparen(b)
+		ia, oka := a.(*ast.Ident)
+		ib, okb := b.(*ast.Ident)
+		if oka && okb {
+			oa, ob := info.Uses[ia], info.Uses[ib]
+			return oa != nil && oa == ob
+		}
+		return !oka && !okb && types.ExprString(a) == types.ExprString(b) && isMaxInstant(info, fd, a, 0)
+	}
+	found := false
+	ast.Inspect(fd, func(n ast.Node) bool {
+		ifs, ok := n.(*ast.IfStmt)
+		if !ok || found {
+			return !found
+		}
+		if ifs.Else != nil || len(ifs.Body.List) != 1 {
+			return true
+		}
+		as, ok := ifs.Body.List[0].(*ast.AssignStmt)
+		if !ok || as.Tok != token.ASSIGN || len(as.Lhs) != 1 || len(as.Rhs) != 1 || as.Rhs[0] != r || !isV(as.Lhs[0]) {
+			return true
+		}
+		ce, ok := ast.Unparen(ifs.Cond).(*ast.CallExpr)
+		if !ok || len(ce.Args) != 1 {
+			return true
+		}
+		sel, ok := ce.Fun.(*ast.SelectorExpr)
+		if !ok {
+			return true
+		}
+		if tv, ok := info.Types[sel.X]; !ok || !isTimeTime(tv.Type) {
+			return true
+		}
+		switch sel.Sel.Name {
+		case "After":
+			if isV(sel.X) && same(ce.Args[0], r) && isMaxInstant(info, fd, r, 0) {
+				found = true
+			}
+		case "Before":
+			if isV(ce.Args[0]) && same(sel.X, r) && isMaxInstant(info, fd, r, 0) {
+				found = true
+			}
+		}
+		return !found
+	})
+	return found
+}
+
+// isMaxInstant: e denotes time.Unix(0, math.MaxInt64), possibly through .UTC()/.In()/.Local()
+// and through a variable assigned exactly once.
+func isMaxInstant(info *types.Info, fd *ast.FuncDecl, e ast.Expr, depth int) bool {
+	if depth > 4 {
+		return false
+	}
+	switch x := ast.Unparen(e).(type) {
+	case *ast.Ident:
+		v, _ := info.Uses[x].(*types.Var)
+		if v == nil {
+			return false
+		}
+		rhs := rhsOf(info, fd, v)
+		return len(rhs) == 1 && isMaxInstant(info, fd, rhs[0], depth+1)
+	case *ast.CallExpr:
+		sel, ok := x.Fun.(*ast.SelectorExpr)
+		if !ok {
+			return false
+		}
+		if tv, ok := info.Types[sel.X]; ok && isTimeTime(tv.Type) {
+			switch sel.Sel.Name {
+			case "UTC", "Local", "In":
+				return isMaxInstant(info, fd, sel.X, depth+1)
+			}
+			return false
+		}
+		if f, ok := info.Uses[sel.Sel].(*types.Func); ok && f.Pkg() != nil && f.Pkg().Path() == "time" && f.Name() == "Unix" && len(x.Args) == 2 {
+			a, b := info.Types[x.Args[0]], info.Types[x.Args[1]]
+			if a.Value == nil || b.Value == nil {
+				return false
+			}
+			sec, ok1 := constant.Int64Val(constant.ToInt(a.Value))
+			ns, ok2 := constant.Int64Val(constant.ToInt(b.Value))
+			return ok1 && ok2 && sec == 0 && ns == math.MaxInt64
+		}
+	}
+	return false
+}
